@@ -24,11 +24,11 @@ package blockstore
 //@   call[util.LdWrite#0] assert written_under_write_lock [C08]: held(b.ronly.mu) == 2
 //@   call[InsertionIndex.InsertNoReplace#0] assert indexed_under_write_lock [C08]: held(b.ronly.mu) == 2
 //@   call[util.LdWrite#0] assert section [C01,C05]: ref(arg0) == ref(b.dataWriter) && len(arg1) == 2 && bytesval(arg1[0]) == cidbytes(c) && ref(arg1[1]) == blockdata(bl)
-//@   call[InsertionIndex.InsertNoReplace#0] assert record [C01,C03,C05]: ref(arg0) == ref(b.idx) && arg1 == c && arg2 == wrap_u64(wrap_s64(athead(0, wn(b.dataWriter)) - wbase(b.dataWriter)))
+//@   call[InsertionIndex.InsertNoReplace#0] assert record [C01,C03,C05,C12]: ref(arg0) == ref(b.idx) && arg1 == c && arg2 == wrap_u64(wrap_s64(athead(0, wn(b.dataWriter)) - wbase(b.dataWriter)))
 //@   call[InsertionIndex.InsertNoReplace#0] assert after_write [C06,C16]: werr == nil
 //@   ghost after call[InsertionIndex.InsertNoReplace#0]: pend(b) := wn(b.dataWriter)
 //@   check every_block_of_the_batch_is_decided [C01,C06]: err == nil ==> rangeindex == len(blks)
-//@   ensures ri_on_return [C16]: wn(b.dataWriter) == pend(b)
+//@   ensures ri_on_return [C12,C16]: wn(b.dataWriter) == pend(b)
 //@   ensures released [C08]: held(b.ronly.mu) == 0
 //@   ensures closed_err [C04]: old(b.ronly.closed) ==> err == errClosed && wn(b.dataWriter) == old(wn(b.dataWriter)) && nrec(b.idx) == old(nrec(b.idx))
 //@   ensures finalized_err [C04]: !old(b.ronly.closed) && old(b.finalized) ==> err == errFinalized && wn(b.dataWriter) == old(wn(b.dataWriter)) && nrec(b.idx) == old(nrec(b.idx))
@@ -45,7 +45,7 @@ package blockstore
 //@   modifies b.finalized, writes(b.f), fsize(b.f)
 //@   requires write_locked [C08]: held(b.ronly.mu) == 2
 //@   requires writer: b.opts.WriteAsCarV1 || b.dataWriter != nil
-//@   call[store.Finalize#0] assert args [C05]: ref(arg0) == ref(b.f) && arg1 == b.header && ref(arg2) == ref(b.idx) && arg3 == wrap_u64(wrap_s64(wn(b.dataWriter) - wbase(b.dataWriter))) && arg4 == b.opts.StoreIdentityCIDs && arg5 == b.opts.IndexCodec
+//@   call[store.Finalize#0] assert args [C05,C16]: ref(arg0) == ref(b.f) && arg1 == b.header && ref(arg2) == ref(b.idx) && arg3 == wrap_u64(wrap_s64(wn(b.dataWriter) - wbase(b.dataWriter))) && arg4 == b.opts.StoreIdentityCIDs && arg5 == b.opts.IndexCodec
 //@   ensures finalized [C04]: err == nil ==> b.finalized
 //@   ensures closed_err [C04]: !b.opts.WriteAsCarV1 && old(b.ronly.closed) ==> err != nil && writes(b.f) == old(writes(b.f))
 //@   ensures twice_err [C04]: !b.opts.WriteAsCarV1 && !old(b.ronly.closed) && old(b.finalized) ==> err != nil && writes(b.f) == old(writes(b.f))
@@ -92,7 +92,7 @@ package blockstore
 //@   requires unlocked [C08]: held(b.mu) == 0
 //@   let _, idok, iderr := call[store.IsIdentity#0]
 //@   let _, _, size, ferr := call[store.FindCid#0]
-//@   call[store.FindCid#0] assert args [C07]: ref(arg0) == ref(b.backing) && ref(arg1) == ref(b.idx) && arg2 == key && arg3 == b.opts.BlockstoreUseWholeCIDs && arg4 == b.opts.ZeroLengthSectionAsEOF && arg5 == b.opts.MaxAllowedSectionSize && arg6 == false
+//@   call[store.FindCid#0] assert args [C04,C07]: ref(arg0) == ref(b.backing) && ref(arg1) == ref(b.idx) && arg2 == key && arg3 == b.opts.BlockstoreUseWholeCIDs && arg4 == b.opts.ZeroLengthSectionAsEOF && arg5 == b.opts.MaxAllowedSectionSize && arg6 == false
 //@   call[store.FindCid#0] assert locked [C08]: held(b.mu) == 1
 //@   call[store.FindCid#0] assert open [C04]: !b.closed
 //@   ensures identity_rule [C04,C07]: b.opts.StoreIdentityCIDs && !old(b.closed) && iderr == nil && err == nil ==> ferr == nil && result0 == size
